@@ -1414,6 +1414,33 @@ func runEff2(m *Model, r *RuleResult) {
 			r.violation("merge:"+short, m.Pos(rf.Pos()), "reduceForward must perform "+short, "fragments of a long edge would survive in the output or the target would lose its in-edge")
 		}
 	}
+	// the fragment taken out of the graph's edge list is the very fragment that is unlinked from its target
+	var remE, remIn []ssa.Value
+	for _, lo := range listOpsOf(m, rf) {
+		if lo.op == "remove" && lo.loc == igDG+".Edges" {
+			remE = append(remE, lo.elem)
+		}
+		if lo.op == "remove" && lo.loc == igNode+".In" {
+			remIn = append(remIn, lo.elem)
+		}
+	}
+	if len(remE) > 0 && len(remIn) > 0 {
+		same := true
+		for _, a := range remE {
+			found := false
+			for _, b := range remIn {
+				if a == b || (sameSSAExpr(a, b, 0) && noWriteBetween(a, b)) {
+					found = true
+				}
+			}
+			same = same && found
+		}
+		if same {
+			r.holds("merge:same-fragment", m.Pos(rf.Pos()), "the edge removed from DGraph.Edges is the fragment that is unlinked from its target's in-list")
+		} else {
+			r.violation("merge:same-fragment", m.Pos(rf.Pos()), "the edge removed from DGraph.Edges must be the fragment that is unlinked from its target", "a different edge is removed from the graph's edge list: a fragment of the long edge stays in the output and another edge is lost")
+		}
+	}
 	if m.effects[rf].Mod[igEdge+".To"] {
 		r.holds("merge:retarget", m.Pos(rf.Pos()), "reduceForward re-targets the head edge")
 	} else {
@@ -1583,4 +1610,31 @@ func hasLayerHMax(m *Model, f *ssa.Function, seen map[*ssa.Function]bool) bool {
 		}
 	})
 	return found
+}
+
+// noWriteBetween: two structurally equal loads denote the same value when they sit in one block with no store or call
+// between them.
+func noWriteBetween(a, b ssa.Value) bool {
+	ia, ok1 := a.(ssa.Instruction)
+	ib, ok2 := b.(ssa.Instruction)
+	if !ok1 || !ok2 || ia.Block() != ib.Block() {
+		return false
+	}
+	in := false
+	for _, x := range ia.Block().Instrs {
+		if x == ia || x == ib {
+			if in {
+				return true
+			}
+			in = true
+			continue
+		}
+		if in {
+			switch x.(type) {
+			case *ssa.Store, *ssa.MapUpdate, ssa.CallInstruction:
+				return false
+			}
+		}
+	}
+	return false
 }
